@@ -28,7 +28,7 @@ Meaning(t) ==
 
 Chosen(slot, pref) ==
   IF ~Usable(slot.doc) THEN slot.hint
-  ELSE IF slot.hint = "none" THEN slot.doc
+  ELSE IF slot.hint \in {"none", "absent"} THEN slot.doc
   ELSE IF pref = "CODE" THEN slot.hint ELSE slot.doc
 Conflict(slot) == slot.hint \notin {"none", "absent"} /\ Usable(slot.doc) /\ slot.hint # slot.doc
 
@@ -36,11 +36,14 @@ Conflict(slot) == slot.hint \notin {"none", "absent"} /\ Usable(slot.doc) /\ slo
    that cannot be understood ("free": free text) - then only the hint gives a type for that position *)
 Absent == [hint |-> "absent", doc |-> "absent"]
 TupleSlots == { [hint |-> h, doc |-> d] : h \in {"int", "str"}, d \in {"int", "str", "free"} }
+(* a third result that only the docstring knows (the hint is a pair): a type given by one source only is used, so it is a result, too *)
+DocOnly == [hint |-> "absent", doc |-> "listint"]
 Universe(style, pref, warn) ==
-  { [params |-> ps, res |-> r, res2 |-> Absent, style |-> style, pref |-> pref, warn |-> warn]
+  { [params |-> ps, res |-> r, res2 |-> Absent, res3 |-> Absent, style |-> style, pref |-> pref, warn |-> warn]
       : ps \in { <<>> } \cup { <<a>> : a \in Slots } \cup { <<a, b>> : a \in Slots, b \in Slots }, r \in Slots }
   \cup (IF style = "NUMPYDOC"
-        THEN { [params |-> <<>>, res |-> r, res2 |-> r2, style |-> style, pref |-> pref, warn |-> warn] : r \in TupleSlots, r2 \in TupleSlots }
+        THEN { [params |-> <<>>, res |-> r, res2 |-> r2, res3 |-> r3, style |-> style, pref |-> pref, warn |-> warn]
+               : r \in TupleSlots, r2 \in TupleSlots, r3 \in { Absent, DocOnly } }
         ELSE {})
 
 VARIABLES sc, pc, i, chosen, log
@@ -94,7 +97,7 @@ Judge(s, obs) ==
         or == [ k \in 1..Len(obs.rtys) |-> P!ObsCanon(obs.rtys[k]) ]
         ep == [ k \in 1..Len(s.params) |-> Meaning(Chosen(s.params[k], s.pref)) ]
         er == IF s.res2 = Absent THEN (IF Chosen(s.res, s.pref) = "none" THEN <<>> ELSE << Meaning(Chosen(s.res, s.pref)) >>)
-              ELSE << Meaning(Chosen(s.res, s.pref)), Meaning(Chosen(s.res2, s.pref)) >>
+              ELSE << Meaning(Chosen(s.res, s.pref)), Meaning(Chosen(s.res2, s.pref)) >> \o (IF s.res3 = Absent THEN <<>> ELSE << Meaning(Chosen(s.res3, s.pref)) >>)
     IN
       (IF Len(op) # Len(ep) THEN { [property |-> "C14", clause |-> "Type", sig |-> "param-count", expected |-> ToString(ep), observed |-> ToString(op)] }
        ELSE { [property |-> "C14", clause |-> "Type", sig |-> "param:" \o s.style \o ":" \o s.pref \o ":" \o SlotSig(s.params[k]),
@@ -102,7 +105,7 @@ Judge(s, obs) ==
       \cup
       (IF or # er THEN { [property |-> "C14", clause |-> "Type",
                            sig |-> "result:" \o s.style \o ":" \o s.pref \o ":"
-                                   \o (IF s.res2 # Absent THEN "two-results:" \o s.res.doc \o "+" \o s.res2.doc
+                                   \o (IF s.res2 # Absent THEN (IF s.res3 # Absent THEN "two-results-and-a-documented-third:" ELSE "two-results:") \o s.res.doc \o "+" \o s.res2.doc
                                        ELSE IF s.res.hint = "none" THEN "doc-only-" \o s.res.doc ELSE IF Conflict(s.res) THEN "conflict" ELSE "agree"),
                            expected |-> ToString(er), observed |-> ToString(or)] } ELSE {})
       \cup
